@@ -71,7 +71,7 @@ def serializer_rules(ctx, R):
 
     def is_list_test(e, pol):
         t = norm(e)
-        return pol is True and (("type(" in t and "== list" in t) or ("isinstance(" in t and "list" in t))
+        return pol is True and (("type(" in t and ("== list" in t or "is list" in t)) or ("isinstance(" in t and "list" in t))
 
     def is_cmd_test(e, pol):
         t = norm(e)
@@ -156,10 +156,18 @@ def serializer_rules(ctx, R):
     ctx.rule("S3", "constant fragments written by the serializer lex (under the current rules) into the punctuation they stand for")
     expected = {" ": [], "\n": [], ";\n": ["semicolon"], " {\n": ["left_cbracket"], "}": ["right_cbracket"], "(": ["left_parenthesis"],
                 ")": ["right_parenthesis"], ", ": ["comma"], "[{}]": ["left_bracket", "identifier", "right_bracket"],
-                '"%s"': ["string"], "%s%s": ["identifier"]}
+                '"%s"': ["string"], "%s%s": ["identifier"], '"{}"': ["string"], "{}{}": ["identifier"]}
     frags = []
+    from sa.template import template as _tpl, shape as _shape, Lit as _Lit
     for c in ast.walk(f.node):
-        if isinstance(c, ast.Constant) and isinstance(c.value, str) and enclosing_name(c) in ("tosieve",):
+        # f-strings: the literal skeleton with {} for every hole is the fragment
+        if isinstance(c, ast.JoinedStr) and enclosing_name(c) in ("tosieve",):
+            t_ = _tpl(c)
+            if t_ is not None and any(isinstance(p_, _Lit) for p_ in t_):
+                frags.append((c, _shape(t_).replace("\0", "{}")))
+            continue
+        if isinstance(c, ast.Constant) and isinstance(c.value, str) and enclosing_name(c) in ("tosieve",) \
+                and not isinstance(getattr(c, "_parent", None), (ast.JoinedStr, ast.FormattedValue)):
             p = c._parent
             if isinstance(p, ast.Call) and c in p.args and isinstance(p.func, ast.Attribute) and p.func.attr == "write":
                 frags.append((c, c.value))
